@@ -34,9 +34,13 @@ func NASEncode(ue *RanUeContext, msg *nas.Message, securityContextAvailable bool
 		}
 
 		// TODO: Support for ue has nas connection in both accessType
-		if err = security.NASEncrypt(ue.CipheringAlg, ue.KnasEnc, ue.ULCount.Get(), security.Bearer3GPP,
-			security.DirectionUplink, payload); err != nil {
-			return
+		// only the "integrity protected and ciphered" header types carry a ciphered payload (TS 24.501 9.3)
+		if msg.SecurityHeaderType == nas.SecurityHeaderTypeIntegrityProtectedAndCiphered ||
+			msg.SecurityHeaderType == nas.SecurityHeaderTypeIntegrityProtectedAndCipheredWithNew5gNasSecurityContext {
+			if err = security.NASEncrypt(ue.CipheringAlg, ue.KnasEnc, ue.ULCount.Get(), security.Bearer3GPP,
+				security.DirectionUplink, payload); err != nil {
+				return
+			}
 		}
 		// add sequece number
 		payload = append([]byte{sequenceNumber}, payload[:]...)
